@@ -106,7 +106,19 @@ def cpython_walk(root):
         if spec is None:
             return
         locs = list(spec.submodule_search_locations) if spec.submodule_search_locations is not None else None
-        out[fullname] = {"origin": spec.origin, "is_pkg": locs is not None, "namespace": locs is not None and spec.origin is None, "locations": locs}
+        pkgutil_style = False
+        if locs and "." not in fullname and spec.origin and spec.origin.endswith("__init__.py") and "extend_path" in open(spec.origin).read():
+            # a pkgutil-style namespace package: CPython's own pkgutil.extend_path computes __path__ (it imports nothing; it scans sys.path)
+            import sys
+
+            saved = sys.path
+            sys.path = list(search)
+            try:
+                locs = list(pkgutil.extend_path(locs, fullname))
+            finally:
+                sys.path = saved
+            pkgutil_style = True
+        out[fullname] = {"origin": spec.origin, "is_pkg": locs is not None, "namespace": locs is not None and spec.origin is None, "locations": locs, "pkgutil": pkgutil_style}
         if locs:
             for info in pkgutil.iter_modules(locs, fullname + "."):
                 add(info.name, locs)
@@ -218,8 +230,8 @@ def run_layout(griffe, acc, layout):
         sandbox.write_tree(d, files)
         os.makedirs(os.path.join(d, "s1"), exist_ok=True)
         os.makedirs(os.path.join(d, "s2"), exist_ok=True)
-        # a pkgutil-style namespace __init__ extends __path__ at import time: a static finder walk cannot know the result
-        ref = cpython_walk(d) if "pkgutil-ns" not in names else None
+        # (a pkgutil-style namespace __init__ extends __path__ at import time: the reference walker calls pkgutil.extend_path itself)
+        ref = cpython_walk(d)
         try:
             mod, points = griffe_load(griffe, d, listing.ascending)
             base_json = canon_json(mod, d)
@@ -254,6 +266,8 @@ def run_layout(griffe, acc, layout):
                 if all(fp.endswith(".pyi") for fp in fps):
                     continue  # stub-only module
                 r = ref.get(name)
+                if r is not None and r.get("pkgutil"):
+                    continue  # how the package object itself is modelled (portions, no __init__ contents) is Griffe's choice; its submodules are judged
                 if r is None:
                     acc.violation(f"extra/{_entry_kind(fps[0])}" + tag("extra", feat), f"Griffe loads {name} from {_rel(fps[0], d)} but CPython cannot import {name}", cd, {"ref": _refview(ref, d)}, size=size)
                     continue
